@@ -261,7 +261,10 @@ func Check(w *symex.World, plan *Plan, opt Options) int {
 		"level":       "model_checking",
 		"wall_s":      wall,
 		"violations":  violations,
-		"assumptions": append(sortedKeys(assumptions), plan.Assumptions...),
+		"assumptions": append(append([]string{
+			"trusted base: the engine's go/ssa interpreter and its term builders for gorgonia's element arithmetic (cross-validated on every case against native runs of the real build), the SMT solvers, gorgonia's structural operations executed natively on term-id tensors",
+			"bounded claim: holds for the structural cases and value domains listed under coverage.bounds; coverage.outside_the_claim lists what is not decided",
+		}, sortedKeys(assumptions)...), plan.Assumptions...),
 		"coverage": map[string]interface{}{
 			"states":                         paths,
 			"transitions":                    max1(queries),
